@@ -759,6 +759,20 @@ impl<'a> Gen<'a> {
             _ => Op::Inter(chunked, lit),
         };
         self.push(op, Kind::Other);
+        // two long literals that render to the same Unicode text: surrogates vs U+FFFD at the same positions
+        if self.rng.chance(1, 3) {
+            let n = 8 + self.rng.usize(5);
+            let w1: Vec<u32> = (0..n).map(|i| if i % 3 == 1 { *self.rng.pick(&[0xD800u32, 0xDBFF, 0xDC00, 0xDFFF]) } else if i % 3 == 2 { 0xFFFD } else { l1 }).collect();
+            let w2: Vec<u32> = w1.iter().map(|&c| if (0xD800..=0xDFFF).contains(&c) { 0xFFFD } else { c }).collect();
+            let a = self.push(Op::Str(w1), Kind::Str);
+            let b = self.push(Op::Str(w2), Kind::Str);
+            let op = match self.rng.below(3) {
+                0 => Op::Diff(a, b),
+                1 => Op::Inter(b, a),
+                _ => Op::Union(a, b),
+            };
+            self.push(op, Kind::Other);
+        }
         // and a word repeated as a unit
         if self.rng.chance(1, 2) && w.len() >= 2 {
             let half = self.push(Op::Str(w[..2].to_vec()), Kind::Str);
